@@ -47,7 +47,11 @@ class Untranslatable(Exception):
 
 
 COQTY = {"node": "nat", "optnode": "option nat", "nodes": "list nat", "bool": "bool", "hist": "list (nat * list nat)",
-         "nat": "nat"}
+         "nat": "nat", "trn": "trans", "trns": "list trans", "trnss": "list (list trans)", "str": "string", "strs": "list string",
+         "onmap": "list (string * list trans)", "otrn": "option trans", "inv": "invoke", "invs": "list invoke", "event": "event",
+         "ids": "list nat", "cache": "unit"}
+ELEM = {"nodes": "node", "trns": "trn", "trnss": "trns", "strs": "str", "invs": "inv"}
+NIL = {"nodes": "(@nil nat)", "trns": "(@nil trans)", "ids": "(@nil nat)", "strs": "(@nil string)"}
 KINDS = {"parallel": "is_parallel", "compound": "is_compound", "history": "is_history", "atomic": "is_atomic",
          "final": "is_final"}
 
@@ -72,6 +76,7 @@ class TreeFn:
         self.coqname = spec["coqname"]
         self.recursive = spec.get("recursive", False)
         self.fuel = "fuel"          # name of the fuel variable in scope for recursive calls
+        self.want = None            # element type wanted for an empty list literal (from the annotation of the assignment)
 
     def fail(self, node, why):
         raise Untranslatable(f"{self.src_name}:{getattr(node, 'lineno', '?')}: {why}: {ast.unparse(node)[:90]}")
@@ -86,6 +91,15 @@ class TreeFn:
 
     def expr(self, e, env):
         """-> (coq text, type)"""
+        nk = "narrow:" + ast.dump(e)
+        if nk in env:
+            return env[nk]
+        if isinstance(e, ast.Constant) and isinstance(e.value, str):
+            if any(ord(c) > 126 or ord(c) < 32 for c in e.value):
+                self.fail(e, "non-ASCII string constant")
+            return '"' + e.value.replace('"', '""') + '"%string', "str"
+        if isinstance(e, ast.Tuple) and e.elts and all(isinstance(x, ast.Constant) and isinstance(x.value, str) for x in e.elts):
+            return "[" + "; ".join(self.expr(x, env)[0] for x in e.elts) + "]", "strs"
         if isinstance(e, ast.Name):
             if e.id in env:
                 return self.v(e.id), env[e.id]
@@ -107,8 +121,32 @@ class TreeFn:
                     return self.v(e.value.id + "_source"), "node"
                 self.fail(e, "attribute of a transition")
             recv, t = self.expr(e.value, env)
+            if t == "event" and e.attr == "type":
+                return f"(e_type {recv})", "str"
+            if t == "trn":
+                if e.attr == "forbidden":
+                    return f"(t_forbidden {recv})", "bool"
+                if e.attr == "event":
+                    return f"(t_event {recv})", "str"
+                if e.attr == "source":
+                    return f"(t_src {recv})", "node"
+                self.fail(e, "attribute of a transition")
+            if t == "inv":
+                if e.attr == "id":
+                    return f"(i_id {recv})", "str"
+                if e.attr == "on_done":
+                    return f"(i_ondone {recv})", "trns"
+                if e.attr == "on_error":
+                    return f"(i_onerror {recv})", "trns"
+                self.fail(e, "attribute of an invoke")
             if t != "node":
                 self.fail(e, f"attribute of {t}")
+            if e.attr == "on":
+                return f"(n_on (nd m {recv}))", "onmap"
+            if e.attr == "on_done":
+                return f"(n_ondone (nd m {recv}))", "otrn"
+            if e.attr == "invoke":
+                return f"(n_invoke (nd m {recv}))", "invs"
             if e.attr == "parent":
                 return f"(parent m {recv})", "optnode"
             if e.attr == "depth":
@@ -124,7 +162,7 @@ class TreeFn:
             self.fail(e, "attribute")
         if isinstance(e, ast.List):
             if not e.elts:
-                return "(@nil nat)", "nodes"
+                return NIL[self.want or "nodes"], (self.want or "nodes")
             items = [self.expr(x, env) for x in e.elts]
             if any(t != "node" for _, t in items):
                 self.fail(e, "list of non-nodes")
@@ -148,6 +186,12 @@ class TreeFn:
             if ta != tb:
                 self.fail(e, f"conditional expression of types {ta} / {tb}")
             return f"(if {c} then {a} else {b})", ta
+        if isinstance(e, ast.BinOp) and isinstance(e.op, ast.Add):
+            a, ta = self.expr(e.left, env)
+            b, tb = self.expr(e.right, env)
+            if ta == tb == "trns":
+                return f"({a} ++ {b})", "trns"
+            self.fail(e, "+ on " + ta)
         if isinstance(e, ast.BinOp) and isinstance(e.op, ast.BitAnd):
             a, ta = self.expr(e.left, env)
             b, tb = self.expr(e.right, env)
@@ -166,6 +210,11 @@ class TreeFn:
                 key = "initof:" + ast.dump(v.value)
                 if key in env:
                     return env[key], "node"
+            if not isinstance(s, ast.Slice):
+                a, ta = self.expr(v, env)
+                b, tb = self.expr(s, env)
+                if ta == "onmap" and tb == "str":
+                    return f"(lookup_on {a} {b})", "trns"
             self.fail(e, "subscript")
         if isinstance(e, ast.Call):
             return self.call(e, env)
@@ -181,15 +230,32 @@ class TreeFn:
                 and isinstance(right.value, str):
             recv, t = self.expr(left.value, env)
             if t != "node":
+                a, ta = self.expr(left, env)
+                if ta == "str":
+                    return wrap(f"(String.eqb {a} {self.expr(right, env)[0]})")
                 self.fail(e, "kind test on " + t)
             if left.attr == "type" and right.value in KINDS:
                 return wrap(f"({KINDS[right.value]} m {recv})")
             if left.attr == "history" and right.value == "deep":
                 return wrap(f"(is_deep m {recv})")
             self.fail(e, "string comparison")
+        # event.src == inv.id
+        if isinstance(op, (ast.Eq, ast.NotEq)) and isinstance(left, ast.Attribute) and left.attr == "src" \
+                and isinstance(left.value, ast.Name) and env.get(left.value.id) == "event":
+            b, tb = self.expr(right, env)
+            if tb == "str":
+                return wrap(f"(ev_src_eqb {self.v(left.value.id)} {b})")
         if isinstance(op, (ast.In, ast.NotIn)):
+            # id(t) in seen
+            if isinstance(left, ast.Call) and isinstance(left.func, ast.Name) and left.func.id == "id" and len(left.args) == 1:
+                a, ta = self.expr(left.args[0], env)
+                b, tb = self.expr(right, env)
+                if ta == "trn" and tb == "ids":
+                    return wrap(f"(mem (t_id {a}) {b})")
             a, ta = self.expr(left, env)
             b, tb = self.expr(right, env)
+            if ta == "str" and tb == "onmap":
+                return wrap(f"(in_list {a} (map fst {b}))")
             if ta == "node" and tb == "nodes":
                 return wrap(f"(mem {a} {b})")
             self.fail(e, f"membership {ta} in {tb}")
@@ -198,6 +264,8 @@ class TreeFn:
             b, tb = self.expr(right, env)
             if ta == tb == "node":
                 return wrap(f"(Nat.eqb {a} {b})")
+            if ta == tb == "str" and isinstance(op, (ast.Eq, ast.NotEq)):
+                return wrap(f"(String.eqb {a} {b})")
             if {ta, tb} <= {"node", "optnode"}:
                 a = a if ta == "optnode" else f"(Some {a})"
                 b = b if tb == "optnode" else f"(Some {b})"
@@ -230,8 +298,15 @@ class TreeFn:
             if t != "node":
                 self.fail(e, "states of " + t)
             return f"(children m {recv})", "nodes"
+        # x.after.values()
+        if isinstance(e, ast.Call) and isinstance(e.func, ast.Attribute) and e.func.attr == "values" and not e.args \
+                and isinstance(e.func.value, ast.Attribute) and e.func.value.attr == "after":
+            recv, t = self.expr(e.func.value.value, env)
+            if t != "node":
+                self.fail(e, "after of " + t)
+            return f"(map snd (n_after (nd m {recv})))", "trnss"
         c, t = self.expr(e, env)
-        if t != "nodes":
+        if t not in ELEM:
             self.fail(e, "iteration over " + t)
         return c, t
 
@@ -244,6 +319,16 @@ class TreeFn:
             return isinstance(x, ast.Attribute) and x.attr == a and isinstance(x.value, ast.Name) and x.value.id == n
         if shape == "depth":
             return attr(lam.body, "depth")
+        if shape == "negdepth_id":
+            b = lam.body
+            return isinstance(b, ast.Tuple) and len(b.elts) == 2 and isinstance(b.elts[0], ast.UnaryOp) \
+                and isinstance(b.elts[0].op, ast.USub) and attr(b.elts[0].operand, "depth") and attr(b.elts[1], "id")
+        def srcdepth(x):
+            return isinstance(x, ast.Attribute) and x.attr == "depth" and attr(x.value, "source")
+        if shape == "src_depth":
+            return srcdepth(lam.body)
+        if shape == "neg_src_depth":
+            return isinstance(lam.body, ast.UnaryOp) and isinstance(lam.body.op, ast.USub) and srcdepth(lam.body.operand)
         if shape == "depth_id":
             return isinstance(lam.body, ast.Tuple) and len(lam.body.elts) == 2 and attr(lam.body.elts[0], "depth") \
                 and attr(lam.body.elts[1], "id")
@@ -278,6 +363,28 @@ class TreeFn:
                     env2[var] = "node"
                     conds = [self.test(c, env2) for c in g.generators[0].ifs] or ["true"]
                     return f"(find (fun {self.v(var)} => {' && '.join(conds)}) {it})", "optnode"
+            if f.id == "list" and len(e.args) == 1 and not kw:
+                a, ta = self.expr(e.args[0], env)
+                if ta == "nodes":
+                    return a, "nodes"
+            if f.id == "_passes" and len(e.args) == 1 and not kw and self.spec.get("guard_oracle"):
+                a, ta = self.expr(e.args[0], env)
+                if ta == "trn":
+                    return f"(gpass {a})", "bool"
+            if f.id == "isinstance" and len(e.args) == 2 and not kw and isinstance(e.args[0], ast.Name) \
+                    and env.get(e.args[0].id) == "event" and isinstance(e.args[1], ast.Name):
+                if e.args[1].id == "AfterEvent":
+                    return f"(is_after_event {self.v(e.args[0].id)})", "bool"
+                if e.args[1].id == "DoneEvent":
+                    return f"(is_done_event {self.v(e.args[0].id)})", "bool"
+            if f.id == "sorted" and len(e.args) == 1 and set(kw) == {"key"} and self.lambda_is(kw["key"], "negdepth_id"):
+                a, ta = self.expr(e.args[0], env)
+                if ta == "nodes":
+                    return f"(sort_by (lt_negdepth_id m) {a})", "nodes"
+            if f.id == "max" and len(e.args) == 1 and set(kw) == {"key"} and self.lambda_is(kw["key"], "src_depth") \
+                    and ("nonempty:" + ast.dump(e.args[0])) in env:
+                hd, tl = env["nonempty:" + ast.dump(e.args[0])]
+                return f"(py_max_by (fun t_ => depth m (t_src t_)) {hd} {tl})", "trn"
             if f.id == "sorted" and len(e.args) == 1 and set(kw) == {"key"} and self.lambda_is(kw["key"], "depth_id"):
                 a, ta = self.expr(e.args[0], env)
                 if ta == "nodes":
@@ -290,6 +397,8 @@ class TreeFn:
         if isinstance(f, ast.Attribute) and isinstance(f.value, ast.Name) and f.value.id == "self" and not kw:
             name = f.attr
             args = [self.expr(a, env) for a in e.args]
+            if name == "_matching_descriptors" and len(args) == 2 and args[0][1] == "onmap" and args[1][1] == "str":
+                return f"(matching_descriptors (map fst {args[0][0]}) {args[1][0]})", "strs"
             if name == "_is_descendant" and len(args) == 2 and args[0][1] == "node" and args[1][1] in ("node", "optnode"):
                 b = f"(Some (id_of m {args[1][0]}))" if args[1][1] == "node" else f"(option_map (id_of m) {args[1][0]})"
                 return f"(is_descendant (id_of m {args[0][0]}) {b})", "bool"
@@ -307,9 +416,17 @@ class TreeFn:
                 cname, ptys, rty, needs = self.known[name]
                 if [t for _, t in args] != ptys:
                     self.fail(e, f"argument types of {name}")
+                args = [(c, t) for c, t in args if t != "cache"]
                 extra = "".join(x + " " for x in needs)
                 return f"({cname} m {extra}{' '.join(c for c, _ in args)})", rty
             self.fail(e, "method call")
+        if isinstance(f, ast.Attribute) and f.attr == "startswith" and len(e.args) == 1 and not kw:
+            recv, tr = self.expr(f.value, env)
+            a, ta = self.expr(e.args[0], env)
+            if tr == "str" and ta == "strs":
+                return f"(startswith_any {recv} {a})", "bool"
+            if tr == "str" and ta == "str":
+                return f"(startswith {recv} {a})", "bool"
         if isinstance(f, ast.Attribute) and f.attr == "get" and self.is_self_attr(f.value, "_history") and len(e.args) == 1 \
                 and isinstance(e.args[0], ast.Attribute) and e.args[0].attr == "id" and not kw:
             p, tp = self.expr(e.args[0].value, env)
@@ -325,9 +442,9 @@ class TreeFn:
         c, t = self.expr(e, env)
         if t == "bool":
             return c
-        if t == "optnode":
+        if t in ("optnode", "otrn"):
             return f"(is_some {c})"
-        if t == "nodes":
+        if t in ("nodes", "trns", "strs", "ids", "invs"):
             return f"(truthy_list {c})"
         self.fail(e, f"truthiness of {t}")
 
@@ -381,7 +498,7 @@ class TreeFn:
                 elif isinstance(n, ast.Assign) and len(n.targets) == 1 and isinstance(n.targets[0], ast.Subscript):
                     name = "%H"
                 elif isinstance(n, ast.Expr) and isinstance(n.value, ast.Call) and isinstance(n.value.func, ast.Attribute) \
-                        and n.value.func.attr in ("append", "add", "reverse") and isinstance(n.value.func.value, ast.Name):
+                        and n.value.func.attr in ("append", "add", "reverse", "sort") and isinstance(n.value.func.value, ast.Name):
                     name = n.value.func.value.id
                 if name and name not in out:
                     out.append(name)
@@ -389,7 +506,7 @@ class TreeFn:
 
     @staticmethod
     def terminates(stmts):
-        return bool(stmts) and isinstance(stmts[-1], (ast.Return, ast.Continue))
+        return bool(stmts) and isinstance(stmts[-1], (ast.Return, ast.Continue, ast.Break))
 
     def cv(self, name):
         return "v_H" if name == "%H" else self.v(name)
@@ -410,14 +527,49 @@ class TreeFn:
         return "'(" + ", ".join(self.cv(n) for n in names) + ")"
 
     def carried_of(self, stmts, env):
-        return [n for n in self.assigned(stmts) if n in env or n == "%H"]
+        return [n for n in self.assigned(stmts) if (n in env and env[n] != "cache") or n == "%H"]
 
-    def block(self, stmts, env, k, loop_k=None, ret_k=None):
-        """k(env): text for falling off the end; loop_k(env): text for `continue`; ret_k(text): wraps a returned value"""
+    def ann_type(self, ann):
+        t = ast.unparse(ann)
+        if "TransitionDefinition" in t:
+            return "trns"
+        if "StateNode" in t:
+            return "nodes"
+        if t.replace(" ", "") in ("Set[int]", "set[int]"):
+            return "ids"
+        if t.startswith(("Dict[", "dict[")):
+            return "cache"
+        return None
+
+    def check_passes(self, fdef):
+        """the nested helper `_passes(transition)`: the guard of a transition evaluated through self._is_guard_satisfied, at most
+        memoised per selection pass by transition identity.  Read as the oracle `gpass`; any other shape is refused."""
+        if not self.spec.get("guard_oracle") or fdef.name != "_passes" or [a.arg for a in fdef.args.args] != ["transition"]:
+            self.fail(fdef, "nested function")
+        call = "self._is_guard_satisfied(transition.guard_def, event)"
+        for n in ast.walk(fdef):
+            if isinstance(n, ast.Return):
+                if n.value is None or ast.unparse(n.value) not in (call, "guard_cache[key]"):
+                    self.fail(n, "_passes returns something else than the guard's value")
+            elif isinstance(n, ast.Assign):
+                txt = ast.unparse(n)
+                if txt not in ("key = id(transition)", f"guard_cache[key] = {call}"):
+                    self.fail(n, "_passes assigns something else than the memo entry")
+            elif isinstance(n, ast.If):
+                if ast.unparse(n.test) not in ("guard_cache is None", "key not in guard_cache"):
+                    self.fail(n, "_passes tests something else than the memo")
+            elif isinstance(n, (ast.For, ast.While, ast.Try, ast.With, ast.Raise, ast.Lambda, ast.AugAssign, ast.Delete, ast.Global, ast.Nonlocal)):
+                self.fail(n, "_passes: statement")
+
+    def block(self, stmts, env, k, loop_k=None, ret_k=None, brk_k=None):
+        """k(env): text for falling off the end; loop_k(env): `continue`; brk_k(env): `break`; ret_k(text, env): wraps a returned value"""
         if not stmts:
             return k(env)
         s, rest = stmts[0], stmts[1:]
-        nxt = lambda env2: self.block(rest, env2, k, loop_k, ret_k)
+        nxt = lambda env2: self.block(rest, env2, k, loop_k, ret_k, brk_k)
+        if isinstance(s, ast.FunctionDef):
+            self.check_passes(s)
+            return nxt(env)
         if isinstance(s, ast.Expr):
             val = s.value
             if isinstance(val, ast.Constant) and isinstance(val.value, str):
@@ -427,15 +579,23 @@ class TreeFn:
                 if f.value.id == "logger":
                     return nxt(env)
                 x = f.value.id
-                if env.get(x) == "nodes":
-                    if f.attr in ("append", "add") and len(val.args) == 1:
-                        a, ta = self.expr(val.args[0], env)
-                        if ta != "node":
-                            self.fail(s, f"{f.attr} of {ta}")
-                        new = f"({self.v(x)} ++ [{a}])" if f.attr == "append" else f"(set_add {a} {self.v(x)})"
-                        return f"let {self.v(x)} := {new} in\n{nxt(env)}"
-                    if f.attr == "reverse" and not val.args:
-                        return f"let {self.v(x)} := (rev {self.v(x)}) in\n{nxt(env)}"
+                tx = env.get(x)
+                if tx in ("nodes", "trns") and f.attr in ("append", "add") and len(val.args) == 1 and not val.keywords:
+                    a, ta = self.expr(val.args[0], env)
+                    if ta != ELEM[tx]:
+                        self.fail(s, f"{f.attr} of {ta}")
+                    new = f"({self.v(x)} ++ [{a}])" if f.attr == "append" else f"(set_add {a} {self.v(x)})"
+                    return f"let {self.v(x)} := {new} in\n{nxt(env)}"
+                if tx == "ids" and f.attr == "add" and len(val.args) == 1 and isinstance(val.args[0], ast.Call) \
+                        and isinstance(val.args[0].func, ast.Name) and val.args[0].func.id == "id" and len(val.args[0].args) == 1:
+                    a, ta = self.expr(val.args[0].args[0], env)
+                    if ta == "trn":
+                        return f"let {self.v(x)} := (set_add (t_id {a}) {self.v(x)}) in\n{nxt(env)}"
+                if tx == "nodes" and f.attr == "reverse" and not val.args:
+                    return f"let {self.v(x)} := (rev {self.v(x)}) in\n{nxt(env)}"
+                if tx == "trns" and f.attr == "sort" and not val.args and len(val.keywords) == 1 and val.keywords[0].arg == "key" \
+                        and self.lambda_is(val.keywords[0].value, "neg_src_depth"):
+                    return f"let {self.v(x)} := (sort_trans m {self.v(x)}) in\n{nxt(env)}"
             self.fail(s, "expression statement")
         if isinstance(s, (ast.Assign, ast.AnnAssign)):
             if isinstance(s, ast.Assign):
@@ -458,13 +618,28 @@ class TreeFn:
             if not isinstance(tgt, ast.Name):
                 self.fail(s, "assignment target")
             name = tgt.id
-            c, t = self.expr(value, env)
+            want = self.ann_type(s.annotation) if isinstance(s, ast.AnnAssign) else None
+            if want == "cache" and isinstance(value, ast.Dict) and not value.keys:
+                env2 = dict(env)
+                env2[name] = "cache"
+                return nxt(env2)
+            if want == "ids" and isinstance(value, ast.Call) and isinstance(value.func, ast.Name) and value.func.id == "set" and not value.args:
+                c, t = NIL["ids"], "ids"
+            else:
+                self.want = want
+                try:
+                    c, t = self.expr(value, env)
+                finally:
+                    self.want = None
             if isinstance(s, ast.AnnAssign) and "Optional" in ast.unparse(s.annotation) and t == "node":
                 c, t = f"(Some {c})", "optnode"
             if name in env and env[name] != t and {env[name], t} != {"node", "optnode"}:
                 self.fail(s, f"type change {env[name]} -> {t}")
             env2 = dict(env)
             env2[name] = t
+            # a rebound name invalidates what was known about its old value
+            for key in [k_ for k_ in env2 if k_.startswith(("nonempty:", "narrow:")) and f"id='{name}'" in k_]:
+                del env2[key]
             return f"let {self.v(name)} := {c} in\n{nxt(env2)}"
         if isinstance(s, ast.Return):
             if s.value is None:
@@ -481,20 +656,35 @@ class TreeFn:
             return ret_k(c, env) if ret_k else c
         if isinstance(s, ast.Continue):
             if loop_k is None:
-                self.fail(s, "continue outside loop")
+                self.fail(s, "continue outside a for loop")
             return loop_k(env)
+        if isinstance(s, ast.Break):
+            if brk_k is None:
+                self.fail(s, "break outside loop")
+            return brk_k(env)
         if isinstance(s, ast.If):
-            return self.if_stmt(s, rest, env, k, loop_k, ret_k)
+            return self.if_stmt(s, rest, env, k, loop_k, ret_k, brk_k)
         if isinstance(s, ast.For):
-            return self.for_stmt(s, rest, env, k, loop_k, ret_k)
+            return self.for_stmt(s, rest, env, k, loop_k, ret_k, brk_k)
         if isinstance(s, ast.While):
-            return self.while_stmt(s, rest, env, k, loop_k, ret_k)
+            return self.while_stmt(s, rest, env, k, loop_k, ret_k, brk_k)
         self.fail(s, "statement")
 
-    def if_stmt(self, s, rest, env, k, loop_k, ret_k):
-        nxt = lambda env2: self.block(rest, env2, k, loop_k, ret_k)
-        sub = lambda stmts, env2, kk: self.block(stmts, env2, kk, loop_k, ret_k)
-        has_exit = contains(s.body + s.orelse, (ast.Return, ast.Continue))
+    def own_exits(self, stmts):
+        """does control leave `stmts` other than by falling off the end?  (break / continue of NESTED loops do not count)"""
+        for s in stmts:
+            if isinstance(s, (ast.Return, ast.Continue, ast.Break)):
+                return True
+            if isinstance(s, ast.If) and (self.own_exits(s.body) or self.own_exits(s.orelse)):
+                return True
+            if isinstance(s, (ast.For, ast.While)) and contains(s.body, ast.Return):
+                return True
+        return False
+
+    def if_stmt(self, s, rest, env, k, loop_k, ret_k, brk_k):
+        nxt = lambda env2: self.block(rest, env2, k, loop_k, ret_k, brk_k)
+        sub = lambda stmts, env2, kk: self.block(stmts, env2, kk, loop_k, ret_k, brk_k)
+        has_exit = self.own_exits(s.body) or self.own_exits(s.orelse)
         # --- `if x.initial and x.initial in x.states:` binds the initial child
         xi = self.initial_test(s.test)
         if xi is not None:
@@ -509,6 +699,29 @@ class TreeFn:
             env2["initof:" + ast.dump(xi)] = "v_initial_"
             return (f"match n_initial (nd m {recv}) with\n| Some v_initial_ => ({sub(s.body, env2, nxt)})\n"
                     f"| None => ({nxt(env)})\nend")
+        # --- `if not l: continue / return ...` on a list of transitions: the rest knows the list is non-empty
+        if isinstance(s.test, ast.UnaryOp) and isinstance(s.test.op, ast.Not) and not s.orelse and self.terminates(s.body):
+            c, t = self.expr(s.test.operand, env)
+            if t == "trns":
+                env2 = dict(env)
+                env2["nonempty:" + ast.dump(s.test.operand)] = ("hd_", "tl_")
+                return f"match {c} with\n| [] => ({sub(s.body, env, nxt)})\n| hd_ :: tl_ => ({nxt(env2)})\nend"
+        # --- `if x.on_done and <rest>:` binds the transition
+        if isinstance(s.test, ast.BoolOp) and isinstance(s.test.op, ast.And) and isinstance(s.test.values[0], ast.Attribute) \
+                and s.test.values[0].attr == "on_done" and not s.orelse:
+            c, t = self.expr(s.test.values[0], env)
+            if t == "otrn":
+                more = s.test.values[1] if len(s.test.values) == 2 else ast.BoolOp(op=ast.And(), values=s.test.values[1:])
+                env2 = dict(env)
+                env2["narrow:" + ast.dump(s.test.values[0])] = ("v_on_done_", "trn")
+                if has_exit:
+                    return (f"match {c} with\n| Some v_on_done_ => (if {self.test(more, env2)} then ({sub(s.body, env2, nxt)}) else ({nxt(env)}))\n"
+                            f"| None => ({nxt(env)})\nend")
+                names = self.carried_of(s.body, env)
+                types = {n: env.get(n) for n in names}
+                kk = lambda e2: self.tup(names, e2, types)
+                return (f"let {self.pat(names)} := (match {c} with\n| Some v_on_done_ => (if {self.test(more, env2)} then ({sub(s.body, env2, kk)}) "
+                        f"else ({kk(env)}))\n| None => ({kk(env)})\nend) in\n{nxt(env)}")
         nar = self.narrow(s.test, env)
         if has_exit:
             # control leaves through a branch: the continuation is duplicated into every branch that falls through
@@ -551,40 +764,63 @@ class TreeFn:
             body = f"if {c} then ({then}) else ({els})"
         return f"let {self.pat(names)} := ({body}) in\n{nxt(env)}"
 
-    def for_stmt(self, s, rest, env, k, loop_k, ret_k):
+    def for_stmt(self, s, rest, env, k, loop_k, ret_k, brk_k):
         if s.orelse or not isinstance(s.target, ast.Name):
             self.fail(s, "for form")
-        it, _ = self.iterable(s.iter, env)
+        it, tit = self.iterable(s.iter, env)
         var = s.target.id
         carried = self.carried_of(s.body, env)
         types = {n: env.get(n) for n in carried}
         env_b = dict(env)
-        env_b[var] = "node"
+        env_b[var] = ELEM[tit]
         has_ret = contains(s.body, ast.Return)
-        nxt = lambda env2: self.block(rest, env2, k, loop_k, ret_k)
-        if not has_ret:
+        has_brk = self.own_break(s.body)
+        nxt = lambda env2: self.block(rest, env2, k, loop_k, ret_k, brk_k)
+        if not has_ret and not has_brk:
             if not carried:
                 self.fail(s, "loop without carried variable")
             kk = lambda env2: self.tup(carried, env2, types)
-            body = self.block(s.body, env_b, kk, kk, None)
-            acc = "acc_" if len(carried) > 1 else self.cv(carried[0])
+            body = self.block(s.body, env_b, kk, kk, None, None)
+            cty = " * ".join(COQTY["hist"] if n == "%H" else COQTY[types[n]] for n in carried)
+            acc = f"(acc_ : {cty})" if len(carried) > 1 else self.cv(carried[0])
             if len(carried) > 1:
                 body = f"let {self.pat(carried)} := acc_ in\n{body}"
             return (f"let {self.pat(carried)} := fold_left (fun {acc} {self.v(var)} =>\n{textwrap.indent(body, '    ')})\n"
                     f"  {it} {self.tup(carried, env, types)} in\n{nxt(env)}")
+        if has_brk and not has_ret:
+            # a `break` inside: the accumulator carries a flag; once it is set the remaining elements are skipped
+            if not carried:
+                self.fail(s, "breaking loop without carried variable")
+            flat = lambda env2: ", ".join(self.tup([n], env2, types) for n in carried)
+            cont = lambda env2: "(false, " + flat(env2) + ")"
+            brk = lambda env2: "(true, " + flat(env2) + ")"
+            body = self.block(s.body, env_b, cont, cont, None, brk)
+            cty = " * ".join(COQTY["hist"] if n == "%H" else COQTY[types[n]] for n in carried)
+            return (f"let '(_, {', '.join(self.cv(n) for n in carried)}) := fold_left (fun (acc_ : bool * {cty}) {self.v(var)} =>\n"
+                    f"    let '(brk_, {', '.join(self.cv(n) for n in carried)}) := acc_ in\n    if brk_ then acc_ else\n"
+                    f"{textwrap.indent(body, '    ')})\n"
+                    f"  {it} (false, {flat(env)}) in\n{nxt(env)}")
         # a `return` inside the loop: the accumulator carries `Some result` once the function has returned
-        if carried:
-            self.fail(s, "loop with both return and carried variables")
+        if carried or has_brk:
+            self.fail(s, "loop with return and carried variables / break")
         kk = lambda env2: "None"
-        body = self.block(s.body, env_b, kk, kk, lambda c, env2: f"(Some {c})")
+        body = self.block(s.body, env_b, kk, kk, lambda c, env2: f"(Some {c})", None)
         after = nxt(env)
         if ret_k:
             self.fail(s, "nested returning loops")
         return (f"match fold_left (fun acc_ {self.v(var)} => match acc_ with Some _ => acc_ | None =>\n"
                 f"{textwrap.indent(body, '    ')} end)\n  {it} None with\n| Some r_ => r_\n| None => ({after})\nend")
 
-    def while_stmt(self, s, rest, env, k, loop_k, ret_k):
-        if s.orelse or contains(s.body, (ast.Return, ast.Continue, ast.Break, ast.While, ast.For)):
+    def own_break(self, stmts):
+        for s in stmts:
+            if isinstance(s, ast.Break):
+                return True
+            if isinstance(s, ast.If) and (self.own_break(s.body) or self.own_break(s.orelse)):
+                return True
+        return False
+
+    def while_stmt(self, s, rest, env, k, loop_k, ret_k, brk_k):
+        if s.orelse or contains(s.body, (ast.Return, ast.While)) or self.own_continue(s.body):
             self.fail(s, "while form")
         nar = self.narrow(s.test, env)
         if not nar or not nar[1]:
@@ -596,15 +832,15 @@ class TreeFn:
         types = {n: env.get(n) for n in carried}
         self.nloop += 1
         lname = f"{self.coqname}_loop{self.nloop}"
-        free = [n for n in env if n not in carried and not n.startswith("initof:") and env[n] in COQTY]
-        ctx = self.spec.get("needs", [])
-        params = "".join(f" ({c} : {'list nat' if c == 'v_C' else COQTY['hist']})" for c in ctx if not (c == "v_H" and "%H" in carried))
+        free = [n for n in env if n not in carried and ":" not in n and env[n] in COQTY and env[n] != "cache"]
+        ctx = [c for c in self.ctx_list() if not (c == "v_H" and "%H" in carried)]
+        params = "".join(f" ({c} : {self.ctx_type(c)})" for c in ctx)
         params += "".join(f" ({self.v(n)} : {COQTY[env[n]]})" for n in free)
         cparams = "".join(f" ({self.cv(n)} : {COQTY['hist'] if n == '%H' else COQTY[types[n]]})" for n in carried)
         rty = " * ".join(COQTY["hist"] if n == "%H" else COQTY[types[n]] for n in carried)
         env_b = dict(env)
         env_b[x] = "node"
-        callargs = "".join(f" {c}" for c in ctx if not (c == "v_H" and "%H" in carried)) + "".join(f" {self.v(n)}" for n in free)
+        callargs = "".join(f" {c}" for c in ctx) + "".join(f" {self.v(n)}" for n in free)
 
         def again(env2):
             items = []
@@ -616,7 +852,7 @@ class TreeFn:
             return f"{lname} m{callargs} fuel_ " + " ".join(items)
 
         stop = lambda env2: self.tup(carried, env2, types)
-        body = self.block(s.body, env_b, again, None, None)
+        body = self.block(s.body, env_b, again, None, None, stop)
         if more is not None:
             body = f"if {self.test(more, env_b)} then ({body}) else ({stop(env_b)})"
         text = (f"Fixpoint {lname} (m : machine){params} (fuel : nat){cparams} {{struct fuel}} : {rty} :=\n"
@@ -624,9 +860,24 @@ class TreeFn:
                 f"    match {self.v(x)} with\n    | None => {stop(env)}\n    | Some {self.v(x)} =>\n"
                 f"{textwrap.indent(body, '      ')}\n    end\n  end.\n")
         self.aux.append(text)
-        nxt = lambda env2: self.block(rest, env2, k, loop_k, ret_k)
+        nxt = lambda env2: self.block(rest, env2, k, loop_k, ret_k, brk_k)
         return (f"let {self.pat(carried)} := {lname} m{callargs} (S (size m)) {' '.join(self.cv(n) for n in carried)} in\n"
                 f"{nxt(env)}")
+
+    def own_continue(self, stmts):
+        for s in stmts:
+            if isinstance(s, ast.Continue):
+                return True
+            if isinstance(s, ast.If) and (self.own_continue(s.body) or self.own_continue(s.orelse)):
+                return True
+        return False
+
+    def ctx_list(self):
+        return list(self.spec.get("needs", []))
+
+    @staticmethod
+    def ctx_type(c):
+        return {"v_C": "list nat", "v_H": COQTY["hist"], "gpass": "trans -> bool"}[c]
 
     # ------------------------------------------------------------------ whole function
     def translate(self):
@@ -636,6 +887,8 @@ class TreeFn:
             env[p] = t
             if t == "trans":
                 sig.append(f"({self.v(p + '_source')} : nat)")
+            elif t == "cache":
+                pass
             else:
                 sig.append(f"({self.v(p)} : {COQTY[t]})")
         a = self.fdef.args
@@ -645,8 +898,7 @@ class TreeFn:
         for d in list(a.defaults) + [d for d in a.kw_defaults if d is not None]:
             if not (isinstance(d, ast.Constant) and d.value is None):
                 raise Untranslatable(f"{self.src_name}: default value other than None")
-        needs = self.spec.get("needs", [])
-        ctx = "".join(f" ({c} : {'list nat' if c == 'v_C' else COQTY['hist']})" for c in needs)
+        ctx = "".join(f" ({c} : {self.ctx_type(c)})" for c in self.ctx_list())
 
         def off_end(env2):
             if self.ret == "hist":
@@ -679,6 +931,11 @@ SPECS = [
          params=[("domain", "optnode"), ("target_state", "node")], ret="nodes", needs=["v_C", "v_H"]),
     dict(func="_record_history", coqname="record_history_src", params=[("states_to_exit", "nodes")], ret="hist",
          needs=["v_C", "v_H"], mutates_hist=True),
+    # selection: the guard of a transition is read through the oracle `gpass : trans -> bool` (the nested helper _passes)
+    dict(func="_collect_eligible_transitions", coqname="collect_eligible_transitions",
+         params=[("state", "node"), ("event", "event"), ("guard_cache", "cache")], ret="trns", needs=["gpass"], guard_oracle=True),
+    dict(func="_select_transitions", coqname="select_transitions", params=[("event", "event")], ret="trns",
+         needs=["v_C", "gpass"], guard_oracle=True),
 ]
 FILE, CLS = "base_interpreter.py", "BaseInterpreter"
 
@@ -695,7 +952,7 @@ def translate_all(src_root=None):
     if body is None:
         raise Untranslatable(f"class {CLS} not found")
     out = ["(* GENERATED by harness/py2coq_tree.py from the current source tree - do not edit *)",
-           "From XSM Require Import Model.TreeLib Gen.GenTree.", ""]
+           "From XSM Require Import Model.TreeLib Gen.GenTree Gen.GenMatch.", ""]
     known = {}
     for spec in SPECS:
         fdefs = [n for n in body if isinstance(n, ast.FunctionDef) and n.name == spec["func"]]
